@@ -46,6 +46,8 @@ type bsess struct {
 	inflightOut map[uint16]string // broker->gw QoS1/2 ids: "puback"|"pubrec"|"pubcomp"
 	inflightIn  map[uint16]bool   // gw->broker QoS2 ids awaiting PUBREL
 	rxCount   int
+	nConnect, nSuback int
+	nextID    uint16
 }
 
 func newBroker(s *Sim) *broker {
@@ -55,7 +57,7 @@ func newBroker(s *Sim) *broker {
 // accept is called from the gateway's goroutine (dial). It only creates objects.
 func (b *broker) accept(sess string) net.Conn {
 	s := b.s
-	bs := &bsess{b: b, name: sess, inflightOut: map[uint16]string{}, inflightIn: map[uint16]bool{}}
+	bs := &bsess{b: b, name: sess, inflightOut: map[uint16]string{}, inflightIn: map[uint16]bool{}, nextID: 100}
 	c := s.W.NewConn("gw.mq:"+sess, false, simrt.Addr{Net: "tcp", S: "gw"}, simrt.Addr{Net: "tcp", S: "10.9.9.9:1883"})
 	bs.conn = c
 	c.Out = func(i int, bb []byte) { bs.fromGw(i, bb) }
@@ -233,7 +235,7 @@ func (bs *bsess) onPacket(p refmqtt.Pkt) {
 		bs.close("fin")
 		return
 	}
-	bs.armKA()
+	defer bs.armKA()
 	silent := b.silentFor(p.Name())
 	switch p.Type {
 	case refmqtt.CONNECT:
@@ -247,10 +249,10 @@ func (bs *bsess) onPacket(p refmqtt.Pkt) {
 		bs.connected = true
 		bs.connect = p
 		rc := b.plan.ConnackRC
-		if b.nConnect < len(b.plan.ConnackRCs) {
-			rc = b.plan.ConnackRCs[b.nConnect]
+		if bs.nConnect < len(b.plan.ConnackRCs) {
+			rc = b.plan.ConnackRCs[bs.nConnect]
 		}
-		b.nConnect++
+		bs.nConnect++
 		if silent {
 			return
 		}
@@ -297,8 +299,8 @@ func (bs *bsess) onPacket(p refmqtt.Pkt) {
 			q := p.QoSs[i]
 			var code byte
 			if len(b.plan.SubackCodes) > 0 {
-				code = b.plan.SubackCodes[b.nSuback%len(b.plan.SubackCodes)]
-				b.nSuback++
+				code = b.plan.SubackCodes[bs.nSuback%len(b.plan.SubackCodes)]
+				bs.nSuback++
 			} else {
 				mq := b.plan.MaxQoS
 				if mq == 0 {
@@ -373,12 +375,12 @@ func (bs *bsess) armKA() {
 	})
 }
 
-func (b *broker) newID() uint16 {
-	b.nextID++
-	if b.nextID == 0 {
-		b.nextID = 1
+func (bs *bsess) newID() uint16 {
+	bs.nextID++
+	if bs.nextID == 0 {
+		bs.nextID = 1
 	}
-	return b.nextID
+	return bs.nextID
 }
 
 // publishTo sends a PUBLISH to one session.
@@ -389,7 +391,7 @@ func (bs *bsess) publishTo(topic string, payload []byte, qos uint8, retain, dup 
 	p := refmqtt.Pkt{Type: refmqtt.PUBLISH, Topic: topic, Payload: payload, QoS: qos, Retain: retain, Dup: dup}
 	if qos > 0 {
 		if id == 0 {
-			id = bs.b.newID()
+			id = bs.newID()
 		}
 		p.ID = id
 		if qos == 1 {
